@@ -76,9 +76,14 @@ func (bc *Bytecode) fixObjects(modules *ugo.ModuleMap) error {
 				continue
 			}
 
-			bmod := modules.Get(string(name))
-			if bmod == nil {
+			mod := modules.Get(string(name))
+			if mod == nil {
 				return fmt.Errorf("module '%s' not found", name)
+			}
+
+			bmod, ok := mod.(*ugo.BuiltinModule)
+			if !ok {
+				return fmt.Errorf("module '%s' is not a builtin module", name)
 			}
 
 			// copy items from given module to decoded object if key exists in obj
@@ -87,7 +92,7 @@ func (bc *Bytecode) fixObjects(modules *ugo.ModuleMap) error {
 					// module name may not present in given map, skip it.
 					continue
 				}
-				o := bmod.(*ugo.BuiltinModule).Attrs[item]
+				o := bmod.Attrs[item]
 				// if item not exists in module, nil will not pass type check
 				want := reflect.TypeOf(obj[item])
 				got := reflect.TypeOf(o)
